@@ -46,6 +46,7 @@ def run(tier, seed):
     vlib.require(done["n"] == summ["events"], "trace length mismatch")
     v.add_tlc(rt)
     v.add_report({"evaluations": summ["events"], "nontrivial": summ["nontrivial"], "samples": summ["samples"], "mismatches": mism}, "M3:Trace_C11", traces=1)
+    vlib.scale_stage(v, wd, "C11")
     return v.finish("model_checking", "lists of lines", exhaustive=False)
 
 
